@@ -165,6 +165,9 @@ func runC03(c *core.Ctx) {
 	runIOBrackets(c, pkgs)
 	iterateControls(c, cb)
 
+	// (5) family B: contracts of the hand-written base helpers (c03_base*.go).
+	runC03Base(c, cb)
+
 	// (3) shared pre-condition tables.
 	k := newG(c, "./lang/check", "./internal/cgen")
 	runC01Tables(k)
